@@ -4,6 +4,7 @@ pub mod checker_level;
 pub mod identity;
 pub mod lockstep;
 pub mod orl;
+pub mod plans;
 pub mod reference;
 pub mod regharness;
 pub mod script;
@@ -165,7 +166,18 @@ pub fn execute(focus: &str, sc: &WalkScenario) -> (Vec<Violation>, Counters, u64
             identity::check_containers(&mut rng, &mut p, &mut v, &mut c);
             c.add("identity_pairs_checked", p.checked);
         }
-        "C10" => check_representatives(&out.states, &mut v, &mut c),
+        "C10" => {
+            check_representatives(&out.states, &mut v, &mut c);
+            // plans built from run data: the local states of the last state, then with extra ties
+            if let Some(last) = out.states.last() {
+                let mut vals: Vec<u8> = last.actor_states.iter().map(|a| a.v).collect();
+                plans::check_plans(&vals, &mut rng, &mut v, &mut c);
+                for _ in 0..rng.below(4) {
+                    vals.push(rng.below(3) as u8);
+                }
+                plans::check_plans(&vals, &mut rng, &mut v, &mut c);
+            }
+        }
         _ => {}
     }
     for s in out.states.iter().take(64) {
